@@ -15,7 +15,7 @@
 (*                                           is a violation for the owners      *)
 (*   "@@ DRIFT l=<event> ..."                divergence outside every property  *)
 (* The orchestrator (check.py) turns them into VIOLATION / KNOWN-FINDING lines. *)
-EXTENDS StepProps, Json, IOUtils
+EXTENDS StepProps, Dump, Json, IOUtils
 
 Rec == ndJsonDeserialize(IOEnv.TRACE)
 
@@ -203,7 +203,9 @@ Handle(ll, e) ==
   ELSE IF k = "dump" THEN
     LET s == e.slot  cur == vts[s] IN
     IF cur = Dead THEN [vts |-> vts, gh |-> gh, msgs |-> <<>>]
-    ELSE [vts |-> vts, gh |-> [gh EXCEPT ![s].dclass = DumpClasses(cur)], msgs |-> <<>>]
+    ELSE [vts |-> vts, gh |-> [gh EXCEPT ![s].dclass = DumpClasses(cur)],
+          msgs |-> IF e.out = VtDump(cur) THEN <<>>
+                   ELSE <<Msg("DRIFT", ll, "dump() text differs from the specification's mirror (the text is not a property)")>>]
   ELSE IF k = "text" THEN
     LET s == e.slot  cur == vts[s] IN
     IF cur = Dead THEN [vts |-> vts, gh |-> gh, msgs |-> <<>>]
